@@ -3,6 +3,7 @@ import collections
 import concurrent.futures
 import queue
 import re
+from collections import abc as c_abc
 from collections.abc import Mapping
 from os import PathLike
 from typing import TypeVar
@@ -34,4 +35,15 @@ BUILTIN_ORIGIN_TO_TYPEVARS: Mapping[type, VarTuple[TypeVar]] = {
     queue.LifoQueue: (_T1, ),
     queue.SimpleQueue: (_T1, ),
     concurrent.futures.Future: (_T1, ),
+    c_abc.Iterable: (_T1_co, ),
+    c_abc.Iterator: (_T1_co, ),
+    c_abc.Reversible: (_T1_co, ),
+    c_abc.Container: (_T1_co, ),
+    c_abc.Collection: (_T1_co, ),
+    c_abc.Sequence: (_T1_co, ),
+    c_abc.MutableSequence: (_T1, ),
+    c_abc.Set: (_T1_co, ),
+    c_abc.MutableSet: (_T1, ),
+    c_abc.Mapping: (_T1, _T2),
+    c_abc.MutableMapping: (_T1, _T2),
 }
